@@ -33,6 +33,8 @@ def try_to_merge_ops(ops1, ops2):
             return None
         if len(ops2_columns_used.intersection(ops1_columns_produced)) > 0:
             return None
+        if len(ops1_columns_used.intersection(ops2_columns_produced)) > 0:
+            return None  # merged step would read and assign the same column
         new_ops = {k: ops1[k] for k in ops1.keys() if k not in common_produced}
         new_ops.update(ops2)
         return new_ops
